@@ -50,7 +50,7 @@ static int process_data(xfrm_stream_t *stream, const void *in,
 			ret = inflate(&gzip->strm, zlib_action[flush_mode]);
 		}
 
-		if (ret == Z_STREAM_ERROR)
+		if (ret != Z_OK && ret != Z_STREAM_END && ret != Z_BUF_ERROR)
 			return XFRM_STREAM_ERROR;
 
 		diff = in_size - gzip->strm.avail_in;
